@@ -181,6 +181,11 @@ def run(chk, prog):
     n7, f7 = c20_flow.rule_K7(chk, lib)
     chk.floor("K7 functions", f7, 2)
     chk.floor("K7", n7, 2)
+    # ---- K8: the writer's block buffers hold exactly the cells gathered for the block that is written ----
+    from . import c20_blocks
+    n8, f8 = c20_blocks.rule_K8(chk, lib)
+    chk.floor("K8 functions", f8, 3)
+    chk.floor("K8", n8, 9)
     # ---- K3 -----------------------------------------------------------------------------------
     n3 = 0
     seen = set()
